@@ -360,7 +360,197 @@ fn judge(stream: &[Sym], storage: bool, max_bfs_parts: usize, loc: &mut Local) {
     loc.sample(|| json!({"stream": desc(), "statistics": format!("{:?}", expect)}));
 }
 
+/// Long streams: tally of the whole, and for several partitions into contiguous parts the left
+/// fold, the right fold and a balanced pairwise (tree) merge of the per-part results.
+fn judge_long(stream: &[Sym], storage: bool, what: &str, loc: &mut Local) {
+    let encs: Vec<Vec<u8>> = stream.iter().enumerate().map(|(i, s)| encode(&build(s, storage, i as u8)).0).collect();
+    let whole: Vec<u8> = encs.concat();
+    let n = stream.len();
+    let details = || json!({"stream": what, "messages": n, "storage": storage});
+    loc.evals += 1;
+    loc.traces += 1;
+    loc.state(fnv64(&whole) ^ storage as u64, true);
+    let expect = tally(stream);
+    loc.transitions += 1;
+    match collect(&whole, storage).and_then(|t| canon(&t)) {
+        Err(e) => return loc.violation("collect_statistics fails on a long stream", format!("{} on {}", e, what), details()),
+        Ok(c) => {
+            if c != expect {
+                loc.outcome("tally differs");
+                let diff: Vec<String> = expect.ecu.iter().filter(|(k, v)| c.ecu.get(*k) != Some(v)).map(|(k, v)| format!("ECU {}: expected {:?} got {:?}", k, v, c.ecu.get(k))).chain(expect.app.iter().filter(|(k, v)| c.app.get(*k) != Some(v)).map(|(k, v)| format!("app {}: expected {:?} got {:?}", k, v, c.app.get(k)))).take(4).collect();
+                return loc.violation("collected statistics differ from the independent tally", format!("{} ({} messages): {:?}", what, n, diff), details());
+            }
+        }
+    }
+    loc.outcome("tally equal");
+    // partitions: k equal parts for several k, singletons at both ends, and one part per message for short streams
+    let mut partitions: Vec<Vec<usize>> = vec![];
+    for k in [2usize, 3, 7, 16, 255, 256, 257] {
+        if k <= n {
+            let mut cuts: Vec<usize> = (1..k).map(|j| j * n / k).collect();
+            cuts.dedup();
+            partitions.push(cuts);
+        }
+    }
+    partitions.push(vec![1]);
+    partitions.push(vec![n - 1]);
+    partitions.push(vec![1, n - 1]);
+    if n <= 1100 {
+        partitions.push((1..n).collect());
+    }
+    for cuts in partitions {
+        let mut parts: Vec<StatisticInfo> = vec![];
+        let mut o = 0usize;
+        for c in cuts.iter().cloned().chain(std::iter::once(n)) {
+            if c <= o {
+                continue;
+            }
+            match collect(&encs[o..c].concat(), storage) {
+                Ok(p) => parts.push(p),
+                Err(e) => return loc.violation("collect_statistics fails on a part", format!("{} on messages {}..{} of {}", e, o, c, what), details()),
+            }
+            o = c;
+        }
+        let np = parts.len();
+        let check = |acc: &StatisticInfo, how: &str, loc: &mut Local| -> bool {
+            match canon(acc) {
+                Ok(c) if c == expect => true,
+                other => {
+                    loc.outcome("merge differs");
+                    loc.violation("merged statistics differ from the whole", format!("{} of {} parts of {} ({} messages) gives {}", how, np, what, n, match other { Ok(c) => format!("ECU {:?} ...", c.ecu.iter().take(3).collect::<Vec<_>>()), Err(e) => e }), details());
+                    false
+                }
+            }
+        };
+        // left fold, right fold
+        for rev in [false, true] {
+            let mut it: Vec<StatisticInfo> = parts.iter().map(clone_info).collect();
+            if rev {
+                it.reverse();
+            }
+            let mut acc = StatisticInfo::new();
+            for p in it {
+                acc.merge(p);
+                loc.transitions += 1;
+            }
+            if !check(&acc, if rev { "right-to-left fold" } else { "left-to-right fold" }, loc) {
+                return;
+            }
+        }
+        // balanced tree
+        let mut level: Vec<StatisticInfo> = parts.iter().map(clone_info).collect();
+        while level.len() > 1 {
+            let mut next = vec![];
+            let mut it = level.into_iter();
+            while let Some(mut a) = it.next() {
+                if let Some(b) = it.next() {
+                    a.merge(b);
+                    loc.transitions += 1;
+                }
+                next.push(a);
+            }
+            level = next;
+        }
+        if !check(&level[0], "balanced pairwise merge", loc) {
+            return;
+        }
+        loc.outcome("partition merged three ways");
+    }
+}
+
+fn leak(s: String) -> &'static str {
+    Box::leak(s.into_boxed_str())
+}
+
 pub fn run(ctx: &Ctx) {
+    // long streams (counters beyond 255 / 65535; many distinct ids)
+    {
+        let full = full_alphabet();
+        let many: Vec<Sym> = {
+            // 300 ECU ids, 400 app ids, 500 context ids combined by coprime strides
+            let ecus: Vec<&'static str> = (0..300).map(|i| leak(format!("e{:03}", i))).collect();
+            let apps: Vec<&'static str> = (0..400).map(|i| leak(format!("a{:03}", i))).collect();
+            let ctxs: Vec<&'static str> = (0..500).map(|i| leak(format!("c{:03}", i))).collect();
+            let t = types12();
+            (0..6000usize).map(|i| Sym { ecu: if i % 11 == 0 { None } else { Some(ecus[(i * 7) % 300]) }, ext: if i % 13 == 0 { None } else { let (mt, mi) = t[(i * 5) % 12]; Some((mt, mi, i % 3 != 0, apps[(i * 3) % 400], ctxs[(i * 11) % 500])) } }).collect()
+        };
+        let lens: Vec<usize> = match ctx.tier {
+            Tier::Quick => vec![255, 256, 257, 1000, 66_000],
+            Tier::Thorough => vec![255, 256, 257, 1000, 4096, 65_535, 65_536, 65_537, 140_000],
+        };
+        let sp = Space::new(&[lens.len(), 4, 2]);
+        let s2 = sp.clone();
+        let (full, many, lens) = (&full, &many, &lens);
+        ctx.run_family(Family::new("c10.long_streams", sp.size(), format!("streams of N messages for N in {:?} x 4 shapes (one symbol repeated, two symbols alternating with the same ids in different buckets, the full 291-symbol alphabet cycled with stride 7, a 6000-symbol alphabet with 300 ECU / 400 application / 500 context ids) x storage mode; tally of the whole; partitions into 2,3,7,16,255,256,257 equal parts, singletons at the ends and (N <= 1100) one part per message, each merged by left fold, right fold and balanced tree", lens), move |i, loc| {
+            let c = s2.coords(i);
+            let n = lens[c[0]];
+            let stream: Vec<Sym> = (0..n)
+                .map(|j| match c[1] {
+                    0 => full[5].clone(),
+                    1 => {
+                        if j % 2 == 0 {
+                            full[9].clone()
+                        } else {
+                            full[1].clone()
+                        }
+                    }
+                    2 => full[(j * 7) % full.len()].clone(),
+                    _ => many[(j * 17) % many.len()].clone(),
+                })
+                .collect();
+            judge_long(&stream, c[2] == 1, &format!("shape {} with {} messages", c[1], n), loc);
+        }).chunk(1));
+    }
+    // directly constructed statistics with large counters: merge is an exact sum
+    {
+        let vals: Vec<usize> = vec![0, 1, 255, 256, 65_535, 65_536, (1usize << 31) - 1, 1usize << 31, (1usize << 32) - 1, 1usize << 32, (1usize << 32) + 5, usize::MAX / 2 - 3];
+        let nv = vals.len();
+        let sp = Space::new(&[nv, nv, 8, 3]);
+        let s2 = sp.clone();
+        let vals = &vals;
+        ctx.run_family(Family::new("c10.big_counts", sp.size(), format!("two directly constructed StatisticInfo values whose counter in bucket b (all 8 buckets) is x and y for x,y in {:?}: same id in both / different ids / id in one only; a.merge(b), b.merge(a), new().merge(a).merge(b) must all be the exact sum", vals), move |i, loc| {
+            let c = s2.coords(i);
+            let (x, y, b, shape) = (vals[c[0]], vals[c[1]], c[2], c[3]);
+            let mk = |v: usize, id: &str, other: usize| -> StatisticInfo {
+                let mut a = [other; 8];
+                a[b] = v;
+                let l = LevelDistribution { non_log: a[0], log_fatal: a[1], log_error: a[2], log_warning: a[3], log_info: a[4], log_debug: a[5], log_verbose: a[6], log_invalid: a[7] };
+                StatisticInfo { app_ids: vec![(id.to_string(), l.clone())], context_ids: vec![("C".to_string(), l.clone()), (id.to_string(), l.clone())], ecu_ids: vec![(id.to_string(), l)], contained_non_verbose: v % 2 == 1 }
+            };
+            let (ida, idb) = match shape {
+                0 => ("X", "X"),
+                1 => ("X", "Y"),
+                _ => ("Y", "X"),
+            };
+            let a = mk(x, ida, 1);
+            let bb = mk(y, idb, 2);
+            loc.evals += 1;
+            loc.traces += 1;
+            loc.state(i, true);
+            let expect = match (canon(&a), canon(&bb)) {
+                (Ok(ca), Ok(cb)) => add(&ca, &cb),
+                _ => unreachable!(),
+            };
+            let runs: Vec<(&str, Box<dyn Fn() -> StatisticInfo>)> = vec![
+                ("a.merge(b)", Box::new(|| { let mut t = clone_info(&a); t.merge(clone_info(&bb)); t })),
+                ("b.merge(a)", Box::new(|| { let mut t = clone_info(&bb); t.merge(clone_info(&a)); t })),
+                ("new().merge(a).merge(b)", Box::new(|| { let mut t = StatisticInfo::new(); t.merge(clone_info(&a)); t.merge(clone_info(&bb)); t })),
+            ];
+            for (how, f) in runs {
+                loc.transitions += 1;
+                match catch(|| f()) {
+                    Err(p) => return loc.violation("merge panics", format!("{} panicked ({}) for counters {} and {} in bucket {}", how, p, x, y, b), json!({"x": x, "y": y, "bucket": b})),
+                    Ok(r) => {
+                        if canon(&r).ok().as_ref() != Some(&expect) {
+                            loc.outcome("merge differs");
+                            return loc.violation("merged statistics differ from the sum", format!("{} for counters {} and {} in bucket {} (ids {}/{}) gives {:?}, expected {:?}", how, x, y, b, ida, idb, canon(&r), expect), json!({"x": x, "y": y, "bucket": b}));
+                        }
+                    }
+                }
+            }
+            loc.outcome("exact sum");
+        }));
+    }
     ctx.set_rule("case = message stream (sequence of header symbols); per stream: recording collector, standard collector vs independent tally, and for every composition into contiguous parts an explicit-state BFS over all merge histories (states = lists of real partial StatisticInfo values, deduplicated by exact representation; invariant checked in every state); evidence.states counts streams plus merge-history states; non-trivial = stream of at least 2 messages");
     ctx.assume("state canonicalisation is NOT applied to the values that are merged (vector order is kept, so order-dependent merge bugs stay visible); only the invariant compares canonical sums, which is sound because the property compares tallies, not vector order");
     let full = full_alphabet();
